@@ -556,3 +556,35 @@ M('C16', 'party-binding-presence-only', MS,
   'if self.registered_verification_keys.get(&single_signature.party_id) != Some(&vk) {',
   'if !self.registered_verification_keys.contains_key(&single_signature.party_id) {',
   ['key registered by signature.party_id'], 'the claimed party must be registered but its key is not compared with the slot key')
+
+# ---------------------------------------------------------------- C08 after seed C08-2
+M('C08', 'stake-narrowed', STM + 'proof_system/concatenation/eligibility.rs',
+  'let w = Ratio::new_raw(BigInt::from(stake), BigInt::from(total_stake));',
+  'let w = Ratio::new_raw(BigInt::from(stake as u32), BigInt::from(total_stake));',
+  ['without narrowing'], 'stake truncated to 32 bits before the exact arithmetic')
+
+# ---------------------------------------------------------------- C13 after seeds C13-1 / C13-2
+PERS = 'internal/mithril-persistence/src/'
+M('C13', 'fk-pragma-error-dropped', PERS + 'sqlite/connection_builder.rs',
+  '''                .execute("pragma foreign_keys=true")
+                .with_context(|| "SQLite initialization: could not enable FOREIGN KEY support.")?;
+        }
+
+        Ok(connection)
+    }
+
+    /// Apply a list''', '''                .execute("pragma foreign_keys=true")
+                .with_context(|| "SQLite initialization: could not enable FOREIGN KEY support.")
+                .ok();
+        }
+
+        Ok(connection)
+    }
+
+    /// Apply a list''', ['foreign_keys'], 'pragma failure ignored: connection returned without enforcement')
+M('C13', 'signer-pool-without-fk', 'mithril-signer/src/dependency_injection/builder.rs',
+  '            &[ConnectionOptions::EnableForeignKeys],\n        )?\n        .build_pool(pool_size)', '            &[],\n        )?\n        .build_pool(pool_size)',
+  ['EnableForeignKeys'], 'signer cardano_tx pool built without the option')
+M('C13', 'streamer-skips-any-rollback-at-or-after-start', 'internal/cardano-node/mithril-cardano-node-chain/src/chain_scanner/chain_reader_block_streamer.rs',
+  'if rollback_slot_number == self.from.slot_number {', 'if rollback_slot_number >= self.from.slot_number {',
+  ['skipped only when'], 'roll-backs to any later point dropped')
